@@ -36,55 +36,82 @@ def main():
     if ck.args.replay:
         import json
         rp = json.load(open(ck.args.replay))
-        corpus = [(lpgen.parse_lp_text(rp["lp"]), [rp.get("config", {})])]
+        corpus = [(lpgen.parse_lp_text(rp["lp"]), [{a: b for a, b in rp.get("config", {}).items() if a != "history"}])]
         lps = []
     lps = [c[0] for c in corpus] + lps
     cfgs = {k: [{}] + [lpgen.rand_config(r) for _ in range(ncfg)] for k in range(len(lps))}
     for k, c in enumerate(corpus):
         cfgs[k] = [{}] + c[1]
-    classes, exs, runs, ans, crashes, skipped = sc.run_in_chunks(ck, exe, model, lps, cfgs)
+    # histories: several solves of one LP on one object with parameter changes in between (warm starts, persistent scaling
+    # kept / dropped / re-applied, limits); every answer is judged as above and every optimize() call's control trace is
+    # replayed through the Coq model of the solve driver
+    hists = {k: ([] if ck.args.replay else [sc.gen_history(r) for _ in range(2 if k % 2 == 0 else 1)]) for k in range(len(lps))}
+    if ck.args.replay and (rp.get("history") or rp.get("config", {}).get("history")):
+        hh = rp.get("history") or rp["config"]["history"]
+        hists[0] = [hh.split() if isinstance(hh, str) else hh]
+    classes, exs, runs, ans, crashes, skipped = sc.run_in_chunks(ck, exe, model, lps, cfgs, hists=hists)
+    sc.driver_verdicts(ck, lps, cfgs, runs, ck.hruns, ans, skipped, hists)
     for (k, c, rc) in crashes:
+        if isinstance(c, str):
+            hs = hists[k][int(c[1:])]
+            ck.violation("crash:history", "the solver crashed (rc=%d) on LP %d in the solve history %s" % (rc, k, " ".join(hs)),
+                         {"lp": lps[k].text("replay"), "lp_format": lps[k].lp_format(), "history": hs, "kind": "crash"})
+            continue
         ck.violation("crash:" + lpgen.cfg_text({a: b for a, b in cfgs[k][c].items() if a in ("starter", "pricer", "factor_update_type")}),
                      "the solver crashed (rc=%d) on LP %d under %s" % (rc, k, cfgs[k][c]),
                      {"lp": lps[k].text("replay"), "lp_format": lps[k].lp_format(), "config": cfgs[k][c], "kind": "crash"})
     worst = {}
+
+    def judge(k, p, cfg, ru, rid, complete):
+        cl = classes[k]
+        st = ru["status"]
+        ck.count("status:" + st)
+        ck.count("family:" + p.family)
+        ck.evaluated((p.key(), lpgen.cfg_text(cfg), rid if not complete else ""), nontrivial=(p.n + p.m >= 3))
+        tags, steps = sc.presolve_tags(ru, cfg)
+        if st == "OPTIMAL":
+            ok = ans[k].get("o" + rid)
+            clause, w = sc.diagnose_opt(p, ru) if all(t in ru for t in ("x", "s", "y", "d", "obj")) else ("missing-vectors", {})
+            for a, b in w.items():
+                worst[a] = max(worst.get(a, 0.0), b) if ok == "true" else worst.get(a, 0.0)
+            if ok != "true":
+                sig = "opt-cert-rejected:%s:%s:rep%s" % (clause, "+".join(tags) or "plain", ru.get("rep", "?"))
+                ck.violation(sig, "OPTIMAL returned but the primal-dual certificate is rejected by check_opt_tol (first failing clause by "
+                             "untrusted diagnosis: %s, worst residuals %s) on a %dx%d %s LP under %s" % (clause, w, p.m, p.n, p.family, cfg),
+                             sc.replay_of(p, cfg, ru, {"theorem": "Cert_Proofs.check_opt_tol_spec", "clause": clause, "residuals": w}))
+            if cl is not None and cl[0] != "optimal":
+                ck.violation("optimal-for-%s-lp:%s" % (cl[0], "+".join(t for t in tags if t == "polish") or "plain"), "OPTIMAL returned for an LP certified %s (exact certificate accepted by the proved checker) under %s" % (cl[0], cfg),
+                             sc.replay_of(p, cfg, ru, {"certified_class": cl[0], "exact": exs[k]}))
+            if cl is not None and cl[0] == "optimal" and "obj" in ru:
+                v = lpgen.dy2fr(ru["obj"])
+                if v is None or abs(v - cl[1]) > OBJ_AGREE * (1 + abs(cl[1])):
+                    ck.violation("objective-not-optimal:%s" % ("+".join(tags) or "plain"),
+                                 "OPTIMAL with objective %s but the certified optimum is %s under %s" % (float(v) if v is not None else None, float(cl[1]), cfg),
+                                 sc.replay_of(p, cfg, ru, {"certified_optimum": lpgen.qs(cl[1])}))
+        elif complete and cl is not None and cl[0] == "optimal":
+            # completeness: an LP with a finite optimum must be solved to OPTIMAL
+            sig = "not-solved:%s:%s" % (st, "+".join(sorted("%s=%s" % (a, b) for a, b in cfg.items() if a in ("pricer", "ratiotester", "starter", "factor_update_type", "representation", "algorithm"))) or "default")
+            ck.violation("not-solved:%s:%s:starter=%s:simplifier=%s" % (st, "+".join(t for t in tags if t == "polish") or "plain", cfg.get("starter", 0),
+                                                                      "off" if cfg.get("simplifier", 3) == 0 else "on"), "LP with certified finite optimum %s was not solved to OPTIMAL (status %s, %s iterations) under %s" % (
+                float(cl[1]), st, ru.get("iters"), cfg), sc.replay_of(p, cfg, ru, {"certified_optimum": lpgen.qs(cl[1]), "detail": sig}))
+
     for k, p in enumerate(lps):
         if k in skipped:
             continue
         cl = classes[k]
         for ru in runs[k]:
             c = int(ru["_id"].split("!")[0])
-            cfg = cfgs[k][c]
-            st = ru["status"]
-            ck.count("status:" + st)
-            ck.count("family:" + p.family)
-            ck.evaluated((p.key(), lpgen.cfg_text(cfg)), nontrivial=(p.n + p.m >= 3))
-            tags, steps = sc.presolve_tags(ru, cfg)
-            if st == "OPTIMAL":
-                ok = ans[k].get("o%d" % c)
-                clause, w = sc.diagnose_opt(p, ru) if all(t in ru for t in ("x", "s", "y", "d", "obj")) else ("missing-vectors", {})
-                for a, b in w.items():
-                    worst[a] = max(worst.get(a, 0.0), b) if ok == "true" else worst.get(a, 0.0)
-                if ok != "true":
-                    sig = "opt-cert-rejected:%s:%s:rep%s" % (clause, "+".join(tags) or "plain", ru.get("rep", "?"))
-                    ck.violation(sig, "OPTIMAL returned but the primal-dual certificate is rejected by check_opt_tol (first failing clause by "
-                                 "untrusted diagnosis: %s, worst residuals %s) on a %dx%d %s LP under %s" % (clause, w, p.m, p.n, p.family, cfg),
-                                 sc.replay_of(p, cfg, ru, {"theorem": "Cert_Proofs.check_opt_tol_spec", "clause": clause, "residuals": w}))
-                if cl is not None and cl[0] != "optimal":
-                    ck.violation("optimal-for-%s-lp:%s" % (cl[0], "+".join(t for t in tags if t == "polish") or "plain"), "OPTIMAL returned for an LP certified %s (exact certificate accepted by the proved checker) under %s" % (cl[0], cfg),
-                                 sc.replay_of(p, cfg, ru, {"certified_class": cl[0], "exact": exs[k]}))
-                if cl is not None and cl[0] == "optimal" and "obj" in ru:
-                    v = lpgen.dy2fr(ru["obj"])
-                    if v is None or abs(v - cl[1]) > OBJ_AGREE * (1 + abs(cl[1])):
-                        ck.violation("objective-not-optimal:%s" % ("+".join(tags) or "plain"),
-                                     "OPTIMAL with objective %s but the certified optimum is %s under %s" % (float(v) if v is not None else None, float(cl[1]), cfg),
-                                     sc.replay_of(p, cfg, ru, {"certified_optimum": lpgen.qs(cl[1])}))
-            elif cl is not None and cl[0] == "optimal":
-                # completeness: an LP with a finite optimum must be solved to OPTIMAL
-                sig = "not-solved:%s:%s" % (st, "+".join(sorted("%s=%s" % (a, b) for a, b in cfg.items() if a in ("pricer", "ratiotester", "starter", "factor_update_type", "representation", "algorithm"))) or "default")
-                ck.violation("not-solved:%s:%s:starter=%s:simplifier=%s" % (st, "+".join(t for t in tags if t == "polish") or "plain", cfg.get("starter", 0),
-                                                                          "off" if cfg.get("simplifier", 3) == 0 else "on"), "LP with certified finite optimum %s was not solved to OPTIMAL (status %s, %s iterations) under %s" % (
-                    float(cl[1]), st, ru.get("iters"), cfg), sc.replay_of(p, cfg, ru, {"certified_optimum": lpgen.qs(cl[1]), "detail": sig}))
+            judge(k, p, cfgs[k][c], ru, str(c), True)
+        for ru in ck.hruns.get(k, []):
+            rid = ru["_id"].split("!")[0]
+            if ru["status"] == "EXCEPTION":
+                continue
+            h, n = rid[1:].split(".")
+            cfg = sc.hist_cfg(hists[k][int(h)], int(n))
+            complete = not sc.limits_set(cfg)
+            cfg["history"] = " ".join(hists[k][int(h)])
+            ck.count("history-solve")
+            judge(k, p, cfg, ru, rid, complete)
         if k < 2:
             ck.sample({"lp": p.text(str(k)), "class": (cl[0] if cl else None), "configs": cfgs[k][:2],
                        "statuses": [ru["status"] for ru in runs[k]]})
